@@ -443,8 +443,14 @@ static void run_zone(Ctx& c, vt::Rng& r, bool thorough, const std::vector<int64_
       time_zone::civil_transition tr;
       size_t n = 0;
       while (n++ < 3000 && ev_trans(c, true, ut(t), &tr)) {
-        TP at = c.tz.lookup(tr.to).trans;
-        if (at <= t && n > 1) break;
+        // the instant of the reported change: `to` read with the offset in force AFTER the change (a change that alters the
+        // designation alone inside an overlap shows a repeated civil second: it is `post`, not `trans`)
+        auto cl = c.tz.lookup(tr.to);
+        TP at = TP::max();
+        bool found = false;
+        for (TP x : {cl.trans, cl.post}) if (x > t && (!found || x < at)) { at = x; found = true; }
+        if (!found && n > 1) break;
+        if (!found) at = cl.trans;
         t = at;
       }
     }
@@ -454,8 +460,12 @@ static void run_zone(Ctx& c, vt::Rng& r, bool thorough, const std::vector<int64_
       time_zone::civil_transition tr;
       size_t n = 0;
       while (n++ < 3000 && ev_trans(c, false, ut(t), &tr)) {
-        TP at = c.tz.lookup(tr.to).trans;
-        if (at >= t && n > 1) break;
+        auto cl = c.tz.lookup(tr.to);
+        TP at = TP::min();
+        bool found = false;
+        for (TP x : {cl.trans, cl.post}) if (x < t && (!found || x > at)) { at = x; found = true; }
+        if (!found && n > 1) break;
+        if (!found) at = cl.trans;
         t = at;
       }
     }
